@@ -105,6 +105,28 @@ Proof. exact sync_meets_spec. Qed.
 Print Assumptions C14_sync_meets_spec.
 
 (* ------------------------------------------------------------------------------------------------ *)
+(* container.Queue: Update does not clobber local lock/unlock/cancel results received during a poll  *)
+From AV Require Import model.C14_queue proofs.C14_queue.
+
+Theorem C14_queue_no_clobber : forall next cur u v old,
+  clook u cur = Some old ->
+  let '(cur', dont) := with_resp (Some (u, v)) cur (Some []) in
+  clook u (update_end next cur' (match dont with Some d => d | None => [] end)) = Some v.
+Proof. exact no_clobber. Qed.
+Print Assumptions C14_queue_no_clobber.
+
+Theorem C14_queue_update_end_keeps_local : forall next cur dont u,
+  memN u dont = true -> clook u (update_end next cur dont) = clook u cur.
+Proof. exact update_end_keeps_local. Qed.
+Print Assumptions C14_queue_update_end_keeps_local.
+
+(* ... and without a local change the cache takes the polled record *)
+Theorem C14_queue_update_end_takes_poll : forall next cur u v,
+  clook u next = Some v -> NoDup (map fst next) -> clook u (update_end next cur []) = Some v.
+Proof. exact update_end_takes_poll. Qed.
+Print Assumptions C14_queue_update_end_takes_poll.
+
+(* ------------------------------------------------------------------------------------------------ *)
 (* the transition system: [run c labels (init_sys create)] executes ANY sequence of
    scheduler passes on arbitrary queue contents / start commands returning / probes beginning and ending /
    processes exiting / kills / give-ups / idle-behaviour changes / shutdowns / sweeps / cloud listings /
